@@ -135,11 +135,21 @@ async def rescan_files(workflow: Workflow, reporter: ReporterClient, builder: Bu
     The following are not checked:
     - Files in the VOLATILE state: they are expected to change.
     - Files in the PLANNED state: they are not yet built, so their content is not relevant.
-    - Detached files: they are not part of the workflow, so their content is not relevant.
+    - Detached files that nothing creates: they are not part of the workflow,
+      so their content is not relevant.
+
+    A detached file that still has a creator is checked, though.
+    It belongs to a detached subtree that is brought back as it is
+    when its plan is defined again and skipped.
+    A static file of that subtree that was edited in the meantime
+    would return with the hash of its old content,
+    and the steps using it would fail on an unexpected input change
+    instead of simply being rerun.
     """
     sql = (
         "SELECT label, state, hash "
-        "FROM node JOIN file ON node.i = file.node AND state NOT IN (?, ?) AND NOT detached"
+        "FROM node JOIN file ON node.i = file.node AND state NOT IN (?, ?) "
+        "AND (NOT detached OR creator IS NOT NULL)"
     )
     data = (FileState.PLANNED.value, FileState.VOLATILE.value)
     async with workflow.db:
